@@ -485,13 +485,61 @@ def make_vv_scaling(pts, wts, shear=False):
                              "np.sqrt -> fresh r>=0 with r*r == x"], theory="QF_NRA", timeout_ms=60000, max_paths=3000)
 
 
+def make_vv_scaling3(pts, wts, name):
+    """d=3 with concrete samples and weights and the symbolic map A = diag(1, s, 1), s in [1e-6, 1e6] (one real unknown). With weights that
+    vanish on all but three samples the weighted covariance has rank 2 and the code's regularised branch is taken."""
+    n = len(pts)
+    X = [[Fraction(c) for c in p] for p in pts]
+    W = [Fraction(w) for w in wts]
+
+    def harness(ctx: PathCtx):
+        sc = real(ctx, "s", lo=Fraction(1, 10 ** 6), hi=10 ** 6)
+        xs = [[SymReal.const(c) for c in row] for row in X]
+        w = [SymReal.const(c) for c in W]
+        try:
+            cv = SymReal.lift(scalar(run_vv(sarr(xs), sarr(w), 3)))
+            ys = [[xs[i][0], sc * xs[i][1], xs[i][2]] for i in range(n)]
+            cv2 = SymReal.lift(scalar(run_vv(sarr(ys), sarr(w), 3)))
+        except DomainError as e:
+            ctx.fail("radicand-nonnegative", str(e))
+            return None
+        ctx.check("cv>=0", z3.And(le(0, cv), le(0, cv2)))
+        ctx.check("invariant-under-ill-conditioned-linear-maps", eq(cv * cv, cv2 * cv2))
+        return None
+
+    def replay(m, label, v):
+        x = np.array([[float(c) for c in row] for row in X])
+        w = np.array([float(c) for c in W])
+        cv = float(tools.volume_variation(x, w))
+        rank = int(np.linalg.matrix_rank(np.cov(x.T, aweights=w)))
+        worst = None
+        for sv in [float(m.get("s", 1.0)), 1e-3, 1e3, 1e-6, 1e6]:
+            A = np.diag([1.0, sv, 1.0])
+            cv2 = float(tools.volume_variation(x @ A.T, w))
+            if not math.isclose(cv, cv2, rel_tol=1e-5, abs_tol=1e-8) and (worst is None or abs(cv2 - cv) > abs(worst[1] - cv)):
+                worst = (sv, cv2, A)
+        if worst is not None:
+            sv, cv2, A = worst
+            sig = "volume_variation:affine-invariant:d3-rank-deficient-covariance" if rank < 3 else "volume_variation:affine-invariant:d3"
+            return {"reproduced": True, "signature": sig, "payload": {"x": x.tolist(), "w": w.tolist(), "A": A.tolist(), "cv": cv, "cv_image": cv2, "rank_of_weighted_covariance": rank},
+                    "what": f"volume_variation of {x.tolist()} (weights {w.tolist()}, weighted covariance of rank {rank}) = {cv}, of its image under diag(1, {sv:g}, 1) = {cv2}"}
+        return {"reproduced": False, "what": f"images under diag(1, s, 1) for the model's s and s = 1e-6 .. 1e6 all give {cv}"}
+
+    return Obligation(f"vv-scaling-d3-{name}", harness, replay=replay, encodes=[tools.volume_variation],
+                      bounds=f"d=3, {n} concrete samples {pts} with weights {wts}; A = diag(1, s, 1), s in [1e-6, 1e6]",
+                      stubs=["np.linalg.matrix_rank -> det==0 model", "np.linalg.inv -> cofactor formula (d=3)", "np.sqrt -> fresh r>=0 with r*r == x"],
+                      theory="QF_NRA", timeout_ms=60000, max_paths=3000)
+
+
 def obligations(tier):
     obs = [make_ess(2), make_ess(3), make_ess_rounding(2), make_ess_rounding(2, "uniform"), make_compute_ess(2), make_compute_ess(3),
            make_trim(2, 2, "9/10"), make_trim(3, 3, "9/10"), make_trim(3, 2, "1/2"), make_trim_fraction(("3/16", "5/8", "3/8"), 4), make_trim_fraction(("3/8", "1/8", "9/16", "5/16", "1/16"), 10), make_trim_fraction(("1/4", "1/2", "1/4"), 4),
            make_vv(1, 2, "nonneg"), make_vv(1, 2, "affine"), make_vv(1, 2, "wscale"),
            make_vv(1, 3, "affine", wgrid=(1, 1, 1)), make_vv(1, 3, "affine", wgrid=(1, 2, 5)), make_vv(1, 3, "wscale", wgrid=(3, 1, 2)),
            make_vv_scaling(((0, 0), (1, 0), (0, 1), (2, 3)), (1, 2, 3, 1)), make_vv_scaling(((0, 0), (1, 0), (0, 1), (2, 3)), (1, 2, 3, 1), shear=True),
-           make_vv_scaling(((1, 1), (2, 1), (1, 3)), (1, 1, 1))]
+           make_vv_scaling(((1, 1), (2, 1), (1, 3)), (1, 1, 1)),
+           make_vv_scaling3(((0, 0, 0), (1, 0, 1), (0, 1, 0), (2, 3, 1), (1, 1, 1)), (1, 2, 3, 1, 2), "full-rank"),
+           make_vv_scaling3(((0, 0, 0), (1, 0, 1), (0, 1, 0), (2, 3, 1), (1, 1, 1)), (1, 2, 3, 0, 0), "rank2-support")]
     # d=2 affine invariance (symbolic or ill-conditioned concrete A) is undecided by nlsat within the budget (unknown at 10 s/query):
     # not scheduled in the quick tier
     if tier == "thorough":
